@@ -69,6 +69,8 @@ type variable struct {
 	sigma        bool        // a series parameter of a helper that the helper only passes on whole: abstract type σ
 	boolLit      string      // a Bool variable that is the literal `true` / `false` (assigned once)
 	sunk         bool        // a pre-loop value computed from parameters only, assigned once: a `let` at the top of step / final
+	loopLocal    bool        // declared before the loop, but assigned at the top level of the loop body before any read in it and not read
+	//                          after the loop: its value never crosses an iteration, it is a local of `step` (no hidden state)
 }
 
 func (v *variable) typ() string {
@@ -228,10 +230,15 @@ type kernel struct {
 	preReadsStateParam bool // a statement before the loop reads a parameter that is also a state
 	blockSunk          bool // ALL statements before the loop are `let`s at the top of step / final (no `pre`)
 	blockDecided       bool
-	defRhs             ast.Expr          // the source expression of the declaration `define` is about to render
-	sunkLets           []sunkLet         // the pre-loop values that are `let`s at the top of step / final, in program order
-	assignedTwice      map[string]bool   // names declared or assigned more than once in the function (syntactic)
-	derived            map[string]string // temporary series of a delegating branch: per-step expression
+	defRhs             ast.Expr                 // the source expression of the declaration `define` is about to render
+	sunkLets           []sunkLet                // the pre-loop values that are `let`s at the top of step / final, in program order
+	assignedTwice      map[string]bool          // names declared or assigned more than once in the function (syntactic)
+	derived            map[string]string        // temporary series of a delegating branch: per-step expression
+	postNames          map[string]bool          // the identifiers the statements after the loop (and the final return) mention
+	retAsBreak         map[*ast.ReturnStmt]bool // `return E` inside a bounded loop that is followed by `return E`: rendered as `break`
+	inlining           []string                 // the procedures being inlined (inline.go)
+	allowWrites        bool                     // the next call may be of a function that writes into slice arguments (statement level)
+	writtenVars        []*variable              // a helper being translated: the []float64 parameters it writes into (returned after the results)
 }
 
 // a function of the module with results (float64, error), not translated: `step` takes it as an argument of type
